@@ -92,6 +92,12 @@ class C03(core.Check):
 
     # ------------------------------------------------------------ shadow generation
     @staticmethod
+    def gen_kv(r, typ, names):
+        """a key-value block (METADATA, VALIDATION, VALUES, CONNECTIONOPTIONS): 0-4 of the names, in any order"""
+        ks = r.sample(names, r.randint(0, min(4, len(names))))
+        return ["kv", {"type": typ, "items": [[k_, ["attr", None, r.choice(M.WORDS)]] for k_ in ks]}]
+
+    @staticmethod
     def list_len(r, small):
         """length of a repeated / pair list: usually a few, now and then long (a digitised polygon, a long dash
         pattern), never a round number only"""
@@ -137,7 +143,14 @@ class C03(core.Check):
                 items.append([k, a])
         extras = []
         if typ in ("map", "layer", "class", "web") and r.random() < 0.4:
-            extras.append(["metadata", ["kv", {"type": "metadata", "items": [[f"key{i}", ["attr", None, r.choice(M.WORDS)]] for i in range(r.randint(0, 3))]}]])
+            extras.append(["metadata", self.gen_kv(r, "metadata", ["key0", "key1", "key2", "wms_title", "ows_enable_request", "b", "a", "10", "9", "z y"])])
+        if typ == "layer" and r.random() < 0.15:
+            extras.append(["validation", self.gen_kv(r, "validation", ["layer", "default_layer", "b", "a", "2", "10"])])
+        if typ == "layer" and r.random() < 0.1:
+            extras.append(["connectionoptions", self.gen_kv(r, "connectionoptions", ["flatten_nested_attributes", "b_opt", "a_opt"])])
+        if typ == "scaletoken" and r.random() < 0.7:
+            # the scale thresholds in whatever order the dictionary was filled (an edit history appends)
+            extras.append(["values", self.gen_kv(r, "values", ["0", "1000", "25000", "100000", "5e5", "2500.5"])])
         if typ == "layer":
             if r.random() < 0.3:
                 extras.append(["processing", ["repeated", [r.choice(["BANDS=1,2,3", "SCALE=0,255", "CLOSE_CONNECTION=DEFER"]) for _ in range(self.list_len(r, 3))]]])
